@@ -18,6 +18,7 @@ import (
 //   ws <fr> <regs> <fc 5|6> <addr> <value>   -> ok | <regs after>   or   err <class> | <regs after>
 //   sq <fr> <regs> <rb|rr:fc:addr:count;..>  -> the results of several reads over ONE link, joined by " ; "
 //   fr <fr> <frameHex>                       -> transport Decode of raw bytes: ok id fc dataHex | err <class>
+//   fq <k> <frameHex>                        -> the same on the CLIENT side of a TCP link after k encoded requests
 //   cv <kind> <v,v,..>                       -> conversions: "<regs> | <back>"
 
 func init() { register("C19", &Prop{Gen: c19Gen, Run: c19Run, Init: c19Init}) }
@@ -211,6 +212,17 @@ func c19Run(c string) string {
 			return mbErr(err)
 		}
 		return fmt.Sprintf("ok %d %d %s", id, pdu.FunctionCode, hx(pdu.Data))
+	case "fq":
+		// the CLIENT side of TCP.Decode: after k requests were encoded, only the answer carrying transaction id k is accepted
+		t := modbus.NewTCP(nil, time.Second, modbus.TransportClient)
+		for i := int64(0); i < atoi64(f[1]); i++ {
+			_, _ = t.Encode(1, modbus.ReadHoldingRegs(0, 1))
+		}
+		id, pdu, err := t.Decode(unhx(f[2]))
+		if err != nil {
+			return mbErr(err)
+		}
+		return fmt.Sprintf("ok %d %d %s", id, pdu.FunctionCode, hx(pdu.Data))
 	case "cv":
 		var in []uint32
 		for _, x := range splitList(f[2]) {
@@ -381,6 +393,14 @@ func c19Gen(r *rand.Rand, n int, tier string) []string {
 				r.Read(fb)
 			}
 			out = append(out, fmt.Sprintf("fr %s %s", fr, hx(fb)))
+			if fr == "tcp" && len(fb) >= 2 {
+				// the same answer as the client sees it after k requests, with a transaction id at, next to or far from k
+				k := 1 + r.Intn(300)
+				got := k + pick(r, []int{0, 0, 0, 1, -1, 2, 256, -256, 255, r.Intn(65536)})
+				fq := append([]byte(nil), fb...)
+				fq[0], fq[1] = byte(got>>8), byte(got)
+				out = append(out, fmt.Sprintf("fq %d %s", k, hx(fq)))
+			}
 		default:
 			kind := pick(r, []string{"u32", "u32s", "i32", "i32s", "f32", "f32s", "i16"})
 			var vs []string
